@@ -23,6 +23,7 @@ import (
 // nextID is pre-set by reflection so that the explored histories cross the 16-bit wrap.
 
 type smCfg struct {
+	Jump  bool     // the alphabet has an event that moves the id counter to 65535 (65534 sessions came and went)
 	Start uint16   // initial nextID
 	IDs   []uint16 // the numbered id universe (key i+1 = IDs[i]); any other id is -2
 	MACs  []int    // slot -> MAC number (1-based)
@@ -55,6 +56,9 @@ func sessionManagerAdapter(index, variant string, c smCfg) Adapter {
 			core.Event{"op": "bind", "how": "CreateSession", "sub": s},
 			core.Event{"op": "release", "how": "RemoveSession", "sub": s},
 			core.Event{"op": "expire", "how": "CleanupExpired", "arg": s})
+	}
+	if c.Jump {
+		a.Events = append(a.Events, core.Event{"op": "noop", "how": "JumpCounter", "sub": 0})
 	}
 	a.mk = func() *km {
 		sm := pppoe.NewSessionManager()
@@ -114,6 +118,10 @@ func sessionManagerAdapter(index, variant string, c smCfg) Adapter {
 				}
 				sm.RemoveSession(slots[s].ID)
 				return map[string]any{"ok": true, "id": int(slots[s].ID)}
+			case "JumpCounter":
+				// sessions that came and went have moved the counter to the end of the id space; the live ones stay
+				core.Field(sm, "nextID").SetUint(65535)
+				return map[string]any{"op": "noop", "ok": true}
 			case "CleanupExpired":
 				// the session of slot `arg` has been idle for two hours; cleanup with a one-hour timeout
 				s := toInt(ev["arg"])
@@ -186,9 +194,11 @@ func smallSessionManagers() []Adapter {
 	}
 	low := smCfg{Start: 1, IDs: lowIDs, MACs: macs, NMACs: 2}
 	wrap := smCfg{Start: 65534, IDs: wrapIDs, MACs: macs, NMACs: 2}
+	jump := smCfg{Start: 1, Jump: true, IDs: wrapIDs, MACs: macs, NMACs: 2}
 	return []Adapter{
 		sessionManagerAdapter("id", "next1", low),
 		sessionManagerAdapter("id", "next65534", wrap),
+		sessionManagerAdapter("id", "next1jump", jump), // sessions 1, 2 ... are live when the counter wraps
 		sessionManagerAdapter("mac", "next1", low),
 	}
 }
